@@ -250,9 +250,15 @@ def check_set_data_size(fx, R, cq, cname):
                 continue
             for x in walk(g['body']):
                 if x.get('k') == 'MCall' and x.get('m') in ('resize', 'conservativeResize', 'setZero', 'setConstant', 'setOnes') and strip_casts(x['obj']).get('name') in BUFFERS:
-                    shr.append((g['name'], x.get('m'), strip_casts(x['obj']).get('name')))
+                    bname = strip_casts(x['obj']).get('name')
+                    # a resize that keeps the buffer's own number of rows (X.resize(X.rows(), n)) only changes the columns: row discipline untouched
+                    a0 = deep_unwrap(sx(x['args'][0])) if x.get('m') in ('resize', 'conservativeResize') and len(x.get('args', [])) == 2 else None
+                    if a0 == ('.rows', 'this.' + bname):
+                        continue
+                    shr.append((g['name'], x.get('m'), bname))
     only = all(n == 'setDataSize' for (n, _, _) in shr)
-    R.check(only, 'L1', cname + ':buffer-resizes', 'buffers are resized/reset outside setDataSize: %s' % shr, 'buffers resized only in setDataSize', fx.rel(f['loc']), 'E-STATE')
+    R.form(only, 'L1', cname + ':buffer-resizes', 'row buffers are resized/reset outside setDataSize (%s); what that does to the rows of the current problem is judged by the instance rule L7 only for the paths it '
+           'reads' % [t_ for t_ in shr if t_[0] != 'setDataSize'], 'row buffers resized only in setDataSize (column-only resizes elsewhere)', fx.rel(f['loc']), 'E-STATE')
 
 
 def loop_header(L):
@@ -721,7 +727,7 @@ def check_instance(fx, R, cq, cname):
             if all_ok and sts and tag.startswith('3 rows'):
                 DECIDED.add(name)
         # the SVD path up to the decomposition: the matrix it decomposes and the right-hand side are those of the current rows
-        fs_ = fx.one(cq + '::estimateUsingSVD')
+        fs_ = fx.one(cq + '::estimateUsingSVD') if data <= 3 else None        # the block-coverage instance is for the two accumulation helpers only
         if fs_ is not None and fs_.get('body') is not None and fs_['body'].get('k') == 'Compound':
             top_ = fs_['body']['s']
             cut = next((i_ for i_, x_ in enumerate(top_) if x_.get('k') == 'Decl' and any('JacobiSVD' in (v_['t'].get('s') or '') for v_ in x_['vars'])), None)
